@@ -529,7 +529,7 @@ def run_case(spec, ctx):
             return
     det.update(sd)
     det.update({n: int(getattr(system, n)) for n in ("nq", "nu", "nla_g", "nla_gamma", "nla_c", "nla_N", "nla_F")})
-    sol, err = None, None
+    sol, err, solver_obj = None, None, None
     with gen.quiet(), warnings.catch_warnings(record=True) as wlog:
         warnings.simplefilter("always")
         try:
@@ -541,7 +541,8 @@ def run_case(spec, ctx):
                 sol = cls(system, la_arc0=1e-2, la_arc_span=np.array([0.0, 1.0]), iter_goal=3, max_load_steps=200,
                           options=SolverOptions(newton_atol=1e-8, newton_rtol=1e-8)).solve()
             elif sname.startswith("Scipy"):
-                sol = cls(system, t1, dt).solve()
+                solver_obj = cls(system, t1, dt)
+                sol = solver_obj.solve()
             elif sname == "DualStormerVerlet":
                 sol = cls(system, t1, dt, options=SolverOptions(), linear_solver=variant).solve()
             else:
@@ -579,6 +580,22 @@ def run_case(spec, ctx):
     else:
         check_contract(ctx, sol, system, sname, cls, t0, t1, dt, truncated, det, fixed_step=True)
     nt = len(sol.t) if getattr(sol, "t", None) is not None else 0
+    if sname == "ScipyIVP" and solver_obj is not None and nt >= 2 and isinstance(sol.t, np.ndarray) and sol.t.flags.writeable:
+        # post-processing in place (time in milliseconds since the start) and a second solve() of the same solver object: the second
+        # Solution must honour the same contract - the returned arrays belong to the caller, not to the solver
+        sol.t -= sol.t[0]
+        sol.t *= 1e3
+        with gen.quiet(), warnings.catch_warnings(record=True) as wlog2:
+            warnings.simplefilter("always")
+            try:
+                sol2 = solver_obj.solve()
+            except (RuntimeError, AssertionError, ValueError):
+                sol2 = None
+        ctx.mon("RESOLVE:second_solve")
+        if isinstance(sol2, CS.Solution):
+            ctx.cls("run:second_solve_after_inplace_postprocessing")
+            check_contract(ctx, sol2, system, sname, cls, t0, t1, dt, any(TRUNC.search(str(w.message)) for w in wlog2),
+                           {**det, "second_solve_after_inplace_postprocessing_of_the_first_solution": True}, fixed_step=True)
     ctx.sig([spec, det, system.q0.tolist(), system.u0.tolist()], nontrivial=nt >= 2 and system.nq > 0)
     ctx.sample({**det, "fields": sorted(k for k, v in _fields(sol).items() if v is not None), "truncated": truncated})
 
